@@ -303,6 +303,7 @@ struct QsEngine : Engine {
 			}
 			if (++own > 1000 * bound) break;
 			probe(P_closing_rounds);
+			if (getenv("SIMQS_TRACE")) fprintf(stderr, "closing t%d own=%d rounds=%d pending=%d st=%d step=%llu\n", me, own, a.rounds, pending, a.st, (unsigned long long)now());
 			if (a.st == 1) do_qs(me);
 			if (a.constructed) do_run(me);
 			progress();
